@@ -85,6 +85,7 @@ type Ctx struct {
 	capped     bool
 	caseIdx    int64
 	guardPath  string
+	guardFile  *os.File
 }
 
 // Thorough reports the tier.
@@ -181,15 +182,24 @@ func (c *Ctx) Violate(key, msg, kind string, cs interface{}) {
 }
 
 // Guard records the case about to be executed so that a fatal runtime error
-// in the worker can be attributed.
+// in the worker (out of memory, stack overflow) can be attributed to it.
 func (c *Ctx) Guard(kind string, cs interface{}) {
 	if c.guardPath == "" {
 		return
 	}
+	if c.guardFile == nil {
+		f, err := os.OpenFile(c.guardPath, os.O_CREATE|os.O_RDWR|os.O_TRUNC, 0o644)
+		if err != nil {
+			return
+		}
+		c.guardFile = f
+	}
 	raw, _ := json.Marshal(cs)
 	v := Violation{Kind: kind, Case: raw}
 	b, _ := json.Marshal(v)
-	os.WriteFile(c.guardPath, b, 0o644)
+	var hdr [8]byte
+	binary.LittleEndian.PutUint64(hdr[:], uint64(len(b)))
+	c.guardFile.WriteAt(append(hdr[:], b...), 0)
 }
 
 // Protect runs f, converting a panic into a message.
@@ -480,9 +490,10 @@ func doParent(spec *Spec, tier string, seed int64, work string) int {
 		b, err := os.ReadFile(outp + ".json")
 		if err != nil {
 			// the worker died: attribute to the guarded case if there is one
-			if g, gerr := os.ReadFile(outp + ".guard"); gerr == nil {
+			if g, gerr := os.ReadFile(outp + ".guard"); gerr == nil && len(g) > 8 {
 				var v Violation
-				if json.Unmarshal(g, &v) == nil {
+				gl := int(binary.LittleEndian.Uint64(g))
+				if gl > 0 && gl <= len(g)-8 && json.Unmarshal(g[8:8+gl], &v) == nil {
 					v.Key = "worker-crash:" + shortHash(v.Case)
 					v.Msg = "worker process died (fatal runtime error, out of memory or hang) while executing this case: " + lastLines(results[i].stderr, 6)
 					viols = append(viols, v)
@@ -507,8 +518,13 @@ func doParent(spec *Spec, tier string, seed int64, work string) int {
 		for k, v := range r.Counters {
 			total.Counters[k] += v
 		}
-		if total.Bounds == nil && r.Bounds != nil {
-			total.Bounds = r.Bounds
+		if total.Bounds == nil {
+			total.Bounds = map[string]interface{}{}
+		}
+		for k, v := range r.Bounds {
+			if _, ok := total.Bounds[k]; !ok {
+				total.Bounds[k] = v
+			}
 		}
 		for _, s := range r.Samples {
 			if len(total.Samples) < 8 {
